@@ -548,6 +548,12 @@ class World:
     def op_bad_call(self, op, p):
         return O.do_bad_call(self, self.dep(op) if op.get("dep") is not None else None, op, p)
 
+    def op_set_mode(self, op, p):
+        d = self.dep(op)
+        if d is None:
+            return "skipped"
+        return O.do_set_mode(self, d, op, p)
+
     def op_set_trainable(self, op, p):
         d = self.dep(op)
         if d is None:
